@@ -9,7 +9,9 @@
 typedef struct fiber_barrier {
   uint32_t count;
   _Atomic uint64_t counter;
-  mpsc_fifo_t waiters;
+  // waiters of even and odd rounds are kept apart: a fiber released from round
+  // k may enter round k+1 while a round-k participant has not enqueued yet
+  mpsc_fifo_t waiters[2];
 } fiber_barrier_t;
 
 #define FIBER_BARRIER_SERIAL_FIBER (1)
